@@ -193,6 +193,11 @@ impl Axecutor {
         addr
     }
 
+    /// Effective address without the segment base, as computed by LEA (segment overrides do not apply to it)
+    pub(crate) fn mem_addr_no_segment(&self, o: MemOperand) -> u64 {
+        self.mem_addr(MemOperand { segment: None, ..o })
+    }
+
     pub(crate) fn instruction_operands_2(
         &self,
         i: Instruction,
